@@ -81,7 +81,10 @@ def signature(rej):
 
 def run(ctx):
     E.build_harness(ctx)
-    cfgs = ["MC_RtmpChunk_q.cfg"] if ctx.quick else ["MC_RtmpChunk_q.cfg", "MC_RtmpChunk_t.cfg"]
+    cfgs = ["MC_RtmpChunk_q.cfg", "MC_RtmpChunk_agg.cfg"]
+    if not ctx.quick:
+        cfgs.append("MC_RtmpChunk_t.cfg")
+    init_cs_of = {"MC_RtmpChunk_agg.cfg": 16}
     scen = []
     for cfg in cfgs:
         res = E.tlc(ctx, "MC_RtmpChunk", cfg, timeout=1500, deadlock=False)
@@ -93,7 +96,7 @@ def run(ctx):
                 (cfg, res["distinct"], g.nedges, len(paths), ncov))
         ctx.cov.setdefault("models", []).append({"cfg": cfg, "distinct": res["distinct"], "edges": g.nedges,
                                                  "paths": len(paths), "edges_covered": ncov})
-        init_cs = 2
+        init_cs = init_cs_of.get(cfg, 2)
         scen += paths_to_scenarios(paths, init_cs, len(scen))
     scen += pool_w2s(ctx, len(scen))
     # scaled whole-range design check (no emission)
